@@ -145,9 +145,30 @@ def handleC15 (kind : String) (fs : List (String × String)) : String :=
         s!"tap-l{getD fs "late" "0"}r{getD fs "rotate" "0"}s{getD fs "skip" "0"}p{getD fs "proto" "2"}" ""
   | _ => "PARSE kind"
 
+/-- the reply on the stream fallback of a probe: acknowledged iff the reply is sealed under an installed key
+with the node's own label as associated data (no header is carried on a reply) and bears the probe's number -/
+def handleFbPing (fs : List (String × String)) : String := Id.run do
+  let some own := (get fs "own").bind hexBytes | return "PARSE own"
+  let some aad := (get fs "aad").bind hexBytes | return "PARSE aad"
+  let sameKey := getD fs "samekey" "0" == "1"
+  let plain := getD fs "plain" "0" == "1"
+  let seqOk := getD fs "seqoff" "0" == "0"
+  let res := getD fs "res" "?"
+  let admitted := !plain && Swim.Codec.sealedStreamAdmitted own true [] aad sameKey
+  let want := if admitted && seqOk then "acked" else "refused"
+  let bad : Option String :=
+    if res == "panic" || res == "blocked" then some s!"fallback-ping-{res}"
+    else if res == "acked" && plain then some "unsealed-reply-counted-as-acknowledgement"
+    else if res == "acked" && !admitted then some s!"reply-sealed-for-another-label-or-key-counted-as-acknowledgement:skip={getD fs "skip" "?"}:samekey={sameKey}"
+    else if res == "acked" && !seqOk then some "acknowledgement-with-a-foreign-number-accepted"
+    else if res == "refused" && admitted && seqOk then some s!"genuine-reply-refused:skip={getD fs "skip" "?"}"
+    else none
+  return s!"{if res == want then "agree" else "DISAGREE"} {match bad with | none => "ok" | some b => "BAD:" ++ b} nt={if !own.isEmpty then 1 else 0} br=fbping-{want}-skip{getD fs "skip" "?"} "
+
 def handleC14 (kind : String) (fs : List (String × String)) : String :=
   match kind with
   | "mut" => handleC14Mut fs
+  | "fbping" => handleFbPing fs
   | "conc" => Swim.Drv.C17.handleConc fs
   | _ => "PARSE kind"
 
